@@ -667,7 +667,7 @@ func (tms *TileMatrixSet) FromNative(zoom uint, pt geom.Point) (*slippy.Tile, bo
 		return nil, false
 	}
 
-	if tm.VariableMatrixWidths != nil {
+	if len(tm.VariableMatrixWidths) != 0 {
 		panic("variable matrix widths not supported") // TODO support VariableMatrixWidths
 	}
 
@@ -749,7 +749,7 @@ func (tms *TileMatrixSet) ToNative(tile *slippy.Tile) (geom.Point, bool) {
 // MatrixSize returns the width and height of a TileMatrix in native CRS units
 func (tms *TileMatrixSet) MatrixSize(tmID TMID) (width float64, height float64) {
 	tm := tms.TileMatrices[tmID]
-	if tm.VariableMatrixWidths != nil {
+	if len(tm.VariableMatrixWidths) != 0 {
 		panic("variable matrix widths not supported") // TODO support VariableMatrixWidths
 	}
 	width = roundFloat(float64(tm.MatrixWidth)*float64(tm.TileWidth)*tm.CellSize, CoordPrecision)
